@@ -506,7 +506,10 @@ class TextXVisitor(RRELVisitor):
             if abstract and cls._tx_type != RULE_ABSTRACT:
                 cls._tx_type = RULE_ABSTRACT
                 has_change[0] = True
-                # Add inherited classes to this rule's meta-class
+            if abstract:
+                # Add inherited classes to this rule's meta-class. Done in
+                # each pass as referenced rules may change their type from
+                # match to abstract in a later pass (circular references).
                 if rule.rule_name and cls.__name__ != rule.rule_name:
                     if rule._tx_class not in cls._tx_inh_by:
                         cls._tx_inh_by.append(rule._tx_class)
